@@ -106,6 +106,7 @@ func cmdCheck(args []string) int {
 		quickTimeout = 120 * time.Second
 		fastTimeout = 10 * time.Second
 		crossCheck = true
+		reachProbes = true // branch-edge reachability diagnostics (loopfx.go)
 	}
 	checks := loadChecks()
 	def, ok := checks[id]
@@ -176,6 +177,8 @@ func cmdCheck(args []string) int {
 	var viols []*violation
 	var knownHit []string
 	nObl, nDis, nCover, nCoverOK := 0, 0, 0, 0
+	nReach := 0
+	deadBranches := []string{}
 	var samples []map[string]any
 	var oblList []map[string]any
 	solvers := map[string]bool{}
@@ -190,6 +193,14 @@ func cmdCheck(args []string) int {
 				if s != "" {
 					solvers[s] = true
 				}
+			}
+			if o.Kind == "reach" {
+				// diagnostics only: branch edges that no path of the model takes
+				nReach++
+				if o.Status != "cover-ok" {
+					deadBranches = append(deadBranches, o.Name+" ("+o.Status+")")
+				}
+				continue
 			}
 			if o.Kind == "cover" {
 				nCover++
@@ -331,6 +342,8 @@ func cmdCheck(args []string) int {
 		"obligation_list":        oblList,
 		"covers":                 nCover,
 		"covers_reachable":       nCoverOK,
+		"branch_probes":          nReach,
+		"branches_unreachable_in_model": deadBranches,
 		"back_ends":              solverList,
 		"solver_time_s":          round3(totalSolverTime),
 		"load_time_s":            round3(loadT),
